@@ -30,11 +30,12 @@ SPECS = [
     ('dense_stokes', True), ('diag_tree_mixed', True), ('hom_tree_mixed', True), ('hom_unit_widening', True), ('diag_blocks_paramfree', True),
     ('diag_2d', True), ('diag_5', True), ('diag_tree_neg', True), ('dense_widening', True), ('bdiag_widening', True),
     ('lazy_inv_spd', False), ('toast_obs', True), ('toast_obs_T', True),
+    ('toep_dense_wide', True), ('toep_os_n8', False), ('toep_os_k2n6', False), ('toep_os_k1n3', False), ('rot_iqu_far', False), ('rot_qu_far_T', False),
 ]
 SPEC_NAMES = [s[0] for s in SPECS]
 EXACT = dict(SPECS)
 NO_TRANSPOSE = {'lazy_inv_spd'}          # the library does not support transposes of the iterative inverse
-SINGLE_ONLY = {'toep_os', 'toep_batched', 'toep_os_short', 'dense_widening', 'bdiag_widening', 'dense_complex', 'diag_complex', 'hom_complex', 'diag_tree_mixed', 'hom_tree_mixed', 'hom_unit_widening'}  # widening: float16 data would overflow in products  # ~100 ms per application (fori_loop re-traced): singles only; C09 owns the methods
+SINGLE_ONLY = {'toep_os_n8', 'toep_os_k2n6', 'toep_os_k1n3', 'toep_os', 'toep_batched', 'toep_os_short', 'dense_widening', 'bdiag_widening', 'dense_complex', 'diag_complex', 'hom_complex', 'diag_tree_mixed', 'hom_tree_mixed', 'hom_unit_widening'}  # widening: float16 data would overflow in products  # ~100 ms per application (fori_loop re-traced): singles only; C09 owns the methods
 MASKED = {'index_mask', 'pack_iqu', 'pack_iqu_T'}  # boolean-mask selection: excluded from the filter_jit-as-argument claim
 
 _MEMO: dict = {}
@@ -209,6 +210,18 @@ def _build(name, dt):
         return LinearPolarizerOperator(stokes('IQU', 2)).T
     if name == 'toep_os_short':   # short signal relative to the band: default FFT size larger than the padded signal
         return SymmetricBandToeplitzOperator(arr([4, 1, 0.5, 0.25]), sds(2))
+    if name == 'toep_dense_wide':  # far more band values than samples (offsets beyond n + 2)
+        return SymmetricBandToeplitzOperator(arr([4, 1, 0.5, 0.25, 2, -1, 3, 0.125, -0.5]), sds(5), method='dense')
+    if name == 'toep_os_n8':       # lengths for which the last kept sample falls on a block boundary of the default FFT size
+        return SymmetricBandToeplitzOperator(arr([4, 1, 0.5, 0.25]), sds(8))
+    if name == 'toep_os_k2n6':
+        return SymmetricBandToeplitzOperator(arr([4, 1]), sds(6))
+    if name == 'toep_os_k1n3':
+        return SymmetricBandToeplitzOperator(arr([4]), sds(3))
+    if name == 'rot_iqu_far':      # angles many turns away from [0, pi) (a continuously rotating element)
+        return QURotationOperator(arr([50000.3, -31000.7]), stokes('IQU', 2))
+    if name == 'rot_qu_far_T':
+        return QURotationOperator(arr([[-70001.1], [12345.6]]), stokes('QU', 2, 3)).T
     if name.startswith('toep_'):
         meth = {'toep_dense': 'dense', 'toep_direct': 'direct', 'toep_fft': 'fft', 'toep_os': 'overlap_save', 'toep_batched': 'overlap_save'}[name]
         if name == 'toep_batched':
@@ -333,7 +346,7 @@ def mixed_cases():
     return [{'a': x, 'b': y, 'dt': 'f32', 'dt_b': 'f64'} for x in names for y in names]
 
 
-SYMMETRIC_TAGGED = {'identity_a', 'hom2_a', 'diag_a', 'diag_a_inv', 'diag_5', 'toep_dense', 'toep_direct', 'toep_fft', 'hwp_iqu', 'diag_m_axis0', 'diag_2d'}
+SYMMETRIC_TAGGED = {'toep_dense_wide', 'identity_a', 'hom2_a', 'diag_a', 'diag_a_inv', 'diag_5', 'toep_dense', 'toep_direct', 'toep_fft', 'hwp_iqu', 'diag_m_axis0', 'diag_2d'}
 
 
 def _same_family(x, y):
